@@ -31,7 +31,7 @@ for b in sorted(glob.glob(os.path.join(VERIF, "benign", "*", "patch.diff"))):
 # if/else inverted, else-after-return removed, && / || operands swapped, && conditions nested
 GEN = os.path.join(VERIF, "bin", "benigngen")
 if os.path.exists(GEN):
-    for mode in ("swapcmp", "invertif", "elseret", "swapand", "nestand"):
+    for mode in ("swapcmp", "invertif", "elseret", "swapand", "nestand", "adddefer"):
         entries.append({"prop": prop, "gen": mode})
 
 from concurrent.futures import ThreadPoolExecutor
